@@ -87,6 +87,23 @@ PROPS["C07"] = dict(
          "non-trivial = distinct sequence creating >= 3 inner nodes",
     assumptions=["tie to the code explored for <= 7 variables"],
 )
+PROPS["C13"] = dict(
+    level_text="Machine-checked proofs (Lean 4) about the models of modelcount_naive / var_dependencies / Bdd::interpretations / the impact measures on the proved store: "
+               "models(t)*2^|vs| = #sat*2^depth (C13.models_exact_ratio), dependency set = essential variables (deps_are_essential), impact measures count exactly those "
+               "(passive_counts_dependents, active_counts_dependencies), path cubes sound / covering where the goal variable has the goal value / pairwise disjoint, none for "
+               "terminals (cubes_*), more_models iff models >= counter-models (repaired D4). Tie to the code: every issued handle of generated operation sequences is queried on "
+               "the real Bdd (paths naive+memo, models naive+memo, depth, dependencies, impacts, cubes) and compared with the model's answers and with a specification computed "
+               "from truth tables alone (satisfying-assignment counts, canonical-diagram path counts and depth, essential variables, cube clause by enumeration of all assignments).",
+    level_note="Trusted: Lean kernel + standard axioms (Counts.lean imports Mathlib.Tactic.Ring for one arithmetic lemma); usize modelled as Nat (depth <= 63 in the tie); "
+               "path-count and depth clauses are compared with an executable truth-table specification (not yet a theorem: counter-model ratio, paths and depth theorems are the next extension); "
+               "correspondence is differential over generated sequences (<= 7 variables).",
+    technique="Lean 4 proof (induction on the diagram, Shannon counting) + correspondence check against model and truth-table specification",
+    jobs=[Job("bdd", 1500, 60000, size=6, size_thorough=7,
+              relevant=heads("q", "cubes", "cubecheck", "impact"), nontrivial=nt_bdd)],
+    rule="operation sequences as for C06; for EVERY issued handle: paths/models (naive and memoised), depth, dependencies, more_models; path cubes for random (goal, goal variable); "
+         "impact measures on random handle lists; each answer compared with the Lean model (exact) and with the truth-table specification; non-trivial = distinct sequence with >= 3 inner nodes",
+    assumptions=["depth <= 63 (usize arithmetic) for the tie", "terminal diagrams have no cube (reading fixed in DESIGN.md section 5)"],
+)
 
 
 # ----------------------------------------------------------------------------------------------
